@@ -46,12 +46,16 @@ type Source struct {
 	FaultWithData bool   // the call reaching FaultAt returns its bytes together with the error
 	FaultErr      string // key into FaultErrs ("" = ErrInjected)
 	DataWithEOF   bool   // the final bytes are returned together with io.EOF
+	// ZeroEvery > 1: every ZeroEvery-th data-bearing call returns (0, nil) instead and delivers nothing ("nothing
+	// happened" in the words of io.Reader; never twice in a row, so every standard wrapper makes progress)
+	ZeroEvery int
 
 	Pos        int64
 	Calls      int
 	ShortCalls int  // calls that returned fewer bytes than requested while more were available
 	MultiCall  bool // input delivered in >= 2 data-bearing calls
 	dataCalls  int
+	zeroCtr    int
 	sizeIdx    int
 	failed     bool
 }
@@ -84,6 +88,12 @@ func (s *Source) Read(p []byte) (int, error) {
 			return 0, s.Err()
 		}
 		return 0, io.EOF
+	}
+	if s.ZeroEvery > 1 {
+		s.zeroCtr++
+		if s.zeroCtr%s.ZeroEvery == 0 {
+			return 0, nil
+		}
 	}
 	n := len(p)
 	if len(s.Sizes) > 0 {
